@@ -129,6 +129,32 @@ fn snapshot_wal(wal_dir: &str, root: &str, n: &mut u64) -> String {
     d
 }
 
+/// Power-loss variant of a WAL directory: every segment is cut back to the length that had been
+/// fdatasync'ed (observed through the interposed libc symbols) - what a power failure, unlike a
+/// process crash, leaves behind. With sync mode EveryWrite acknowledged entries must survive it.
+fn powerloss_wal(wal_dir: &str, root: &str, n: &mut u64) -> String {
+    let d = snapshot_wal(wal_dir, root, n);
+    if let Ok(rd) = std::fs::read_dir(wal_dir) {
+        for e in rd.flatten() {
+            let name = e.file_name().to_string_lossy().to_string();
+            if !name.starts_with("segment-") {
+                continue;
+            }
+            let orig = e.path().to_string_lossy().to_string();
+            let canon = std::fs::canonicalize(&orig).map(|c| c.to_string_lossy().to_string()).unwrap_or(orig.clone());
+            let durable = clock::durable_len(&canon).or_else(|| clock::durable_len(&orig)).unwrap_or(0);
+            let copy = format!("{}/{}", d, name);
+            if let Ok(f) = std::fs::OpenOptions::new().write(true).open(&copy) {
+                let len = f.metadata().map(|m| m.len()).unwrap_or(0);
+                if durable < len {
+                    let _ = f.set_len(durable);
+                }
+            }
+        }
+    }
+    d
+}
+
 /// Boot an image: recover, flush, and return the ids reachable through the catalog
 /// (plus the recovered buffer's row count). Optionally gated, producing sub-images.
 struct BootResult {
@@ -367,14 +393,14 @@ fn one_execution(ctx: &Ctx, out: &mut Outcome, plan: Plan, mut rng: Rng, idx: u6
                     // let the released step run until everyone is blocked again, then image
                     sim::barrier().await;
                     let d = snapshot_wal(&wal_dir2, &exec_root2, &mut counter);
-                    images.push(Image {
-                        label: format!("{}@{}:{}", if plan2.local_backend { "local" } else { "s3" }, p.op, p.path.chars().rev().take(28).collect::<String>().chars().rev().collect::<String>()),
-                        store: Arc::new(ctl.backing.fork()),
-                        wal_dir: d,
-                        local_catalog: if plan2.local_backend { local_catalog_of(&local).await } else { vec![] },
-                        acked: acked_now(&ctl),
-                        depth: 0,
-                    });
+                    let label = format!("{}@{}:{}", if plan2.local_backend { "local" } else { "s3" }, p.op, p.path.chars().rev().take(28).collect::<String>().chars().rev().collect::<String>());
+                    let lc = if plan2.local_backend { local_catalog_of(&local).await } else { vec![] };
+                    images.push(Image { label: label.clone(), store: Arc::new(ctl.backing.fork()), wal_dir: d, local_catalog: lc.clone(), acked: acked_now(&ctl), depth: 0 });
+                    if counter % 3 == 0 {
+                        // the same instant as a power failure: unsynced WAL bytes are gone
+                        let d2 = powerloss_wal(&wal_dir2, &exec_root2, &mut counter);
+                        images.push(Image { label: format!("{}+powerloss", label), store: Arc::new(ctl.backing.fork()), wal_dir: d2, local_catalog: lc, acked: acked_now(&ctl), depth: 0 });
+                    }
                 }
             }
             if sched.steps > 20_000 {
@@ -449,6 +475,9 @@ fn one_execution(ctx: &Ctx, out: &mut Outcome, plan: Plan, mut rng: Rng, idx: u6
         if img.depth > 0 {
             out.count("crash_restart_crash_images", 1);
         }
+        if img.label.contains("+powerloss") {
+            out.count("power_loss_images", 1);
+        }
         if was_gated {
             out.count("gated_recoveries", 1);
             out.count("gated_recovery_steps", res.steps);
@@ -475,7 +504,9 @@ fn one_execution(ctx: &Ctx, out: &mut Outcome, plan: Plan, mut rng: Rng, idx: u6
         }
         if !missing.is_empty() {
             let injected_any = injected > 0;
-            let sig = if img.label.contains("torn") {
+            let sig = if img.label.contains("+powerloss") && !img.label.contains("torn") {
+                "C01/acked-row-lost/power-loss-image(unsynced-wal-bytes)"
+            } else if img.label.contains("torn") {
                 "C01/acked-row-lost/torn-tail"
             } else if injected_any {
                 "C01/acked-row-lost/after-injected-fault"
